@@ -32,6 +32,37 @@ HDR = ("From Coq Require Import List ZArith NArith Ascii String. Import ListNota
        "Definition sb (l : list N) : string := string_of_list_ascii (map ascii_of_N l).\n")
 
 
+_ORDER = ["Model/Duration", "Model/Temporal", "Model/Scalars", "Model/ScalarsEq", "Proofs/DurationLemmas",
+          "Proofs/ScalarsLemmas", "Props/C04"]     # a linear extension of the Require order of C04's files
+
+
+def _prebuild():
+    """lib.base_make hands make relative targets while the generated dependency file names absolute paths, so make
+    does not notice that a *dependency* of a target changed.  Recompile C04's own files in dependency order when
+    a source is newer than its .vo (or an earlier file was rebuilt); no-op when up to date."""
+    import fcntl
+    os.makedirs(lib.COQ, exist_ok=True)
+    with open(os.path.join(lib.COQ, ".lock"), "w") as lock:
+        fcntl.flock(lock, fcntl.LOCK_EX)
+        try:
+            dirty = False
+            for m in _ORDER:
+                v = os.path.join(lib.THEORIES, m + ".v")
+                vo = v + "o"
+                if dirty or not os.path.exists(vo) or os.path.getmtime(vo) < os.path.getmtime(v):
+                    dirty = True
+                    rc, out, err = lib.sh(["coqc", "-q", "-Q", lib.THEORIES, "TL", v], timeout=600, cwd=lib.COQ)
+                    if rc != 0:
+                        if os.path.exists(vo):
+                            os.unlink(vo)         # base_make then reports the failing file
+                        break
+        finally:
+            fcntl.flock(lock, fcntl.LOCK_UN)
+
+
+_prebuild()
+
+
 class EInt(enum.Enum):
     one = 1
     two = 2
